@@ -21,6 +21,7 @@ def main(tier, seed):
     # (i) syntax-error ranges: a token's range or the empty range at the end of the text; token ends are char boundaries
     synrun.token_suite(chk, oracle, sp, jobs, props, B['tokens'], B['ctx'])
     synrun.token_suite(chk, oracle, sp, jobs, props, B['raw'], 0, lo='WHITESPACE', hi='ERROR', raw=True)
+    synrun.deep_suite(chk, oracle, sp, jobs, props, 1, 3)
     synrun.lexer_suite(chk, oracle, sp, jobs, props + ['C01/C20', 'C01: token'], B['lex'], B['pipeline'])
     oracle.close()
     syn.W.cleanup()
